@@ -18,6 +18,9 @@
 #include <complex>
 #include <string>
 #include <vector>
+#ifdef BLOCH_VERIF
+#include <functional>
+#endif
 #include "bloch/support/error/bloch_error.hpp"
 
 namespace bloch::runtime {
@@ -40,6 +43,24 @@ namespace bloch::runtime {
         int measure(int q);
         std::string getQasm() const;
         size_t stateSize() const { return m_state.size(); }
+#ifdef BLOCH_VERIF
+        // Verification hooks (read-only observers + deterministic draw source).
+        struct VerifOutcome {
+            char op;      // 'm' = measure, 'r' = reset
+            int qubit;
+            int outcome;
+            double p1;
+            double r;
+        };
+        const std::vector<std::complex<double>>& verifState() const { return m_state; }
+        int verifQubits() const { return m_qubits; }
+        const std::vector<bool>& verifMeasuredFlags() const { return m_measured; }
+        const std::vector<VerifOutcome>& verifOutcomes() const { return m_verifOutcomes; }
+        // When set, measure/reset take their uniform draw from this source instead of the
+        // process-global generator.
+        static void verifSetDrawSource(std::function<double()> f);
+        static void verifSeed(unsigned long long seed);
+#endif
 
        private:
         int m_qubits = 0;
@@ -47,6 +68,9 @@ namespace bloch::runtime {
         std::vector<std::string> m_ops;
         bool m_logOps = true;
         std::vector<bool> m_measured;
+#ifdef BLOCH_VERIF
+        std::vector<VerifOutcome> m_verifOutcomes;
+#endif
 
         // Apply a 2x2 unitary to qubit q.
         void applySingleQubitGate(int q, const std::array<std::complex<double>, 4>& m);
